@@ -379,6 +379,13 @@ class World:
         asyncio.set_event_loop(self.loop)
         self.net = Net(self.loop, r, latency)
 
+    def set_regime(self, regime):
+        """Switch the schedule regime in mid-scenario (e.g. connect under B, then go hostile)."""
+        self.regime = regime
+        v = self.loop.vsel
+        v.late_max, v.stall_p, v.stall_max, cost = REGIMES[regime]
+        self.clock.cost = cost
+
     def run(self, coro):
         """Run to completion.  Raises ScenarioHang / Watchdog from the selector."""
         return self.loop.run_until_complete(coro)
